@@ -288,6 +288,11 @@ func (rb *RingBuffer) DiscardStride(stride uint64) (err error) {
 	if newRp%stride > 0 {
 		newRp -= newRp % stride
 	}
+	// Never move the read pointer backwards: if no multiple of stride lies between the
+	// read and write pointers, there is nothing that can be discarded.
+	if newRp < rb.desc.readPointer {
+		return nil
+	}
 	rb.desc.readPointer = newRp
 	return nil
 }
